@@ -361,6 +361,49 @@ tokenizer = cssutils.tokenize2.Tokenizer()
 savedTokens = []
 
 
+class _SorTokens:
+    """Iterator over `tokens` which while ``until`` is set has S tokens
+    removed if followed by anything in ``until``, normally a ``,``.
+    ``until`` is reset by the first token which is no S or COMMENT."""
+
+    def __init__(self, tokens, types):
+        self.tokens = tokens
+        self.types = types
+        self.until = None
+        self._pending = []
+
+    def __iter__(self):
+        return self
+
+    def __next__(self):
+        if self._pending:
+            return self._pending.pop()
+        token = next(self.tokens)
+        if self.until is None:
+            return token
+        if token[0] == self.types.S:
+            try:
+                next_ = next(self.tokens)
+            except StopIteration:
+                return token
+            if next_[1] in self.until:
+                # omit S as e.g. ``,`` has been found
+                return next_
+            elif next_[0] == self.types.COMMENT:
+                # pass COMMENT
+                return next_
+            # S was no operator prefix: back to normal mode
+            self.until = None
+            self._pending.append(next_)
+            return token
+        elif token[0] == self.types.COMMENT:
+            # pass COMMENT
+            return token
+        # normal mode again
+        self.until = None
+        return token
+
+
 class ProdParser:
     """Productions parser."""
 
@@ -403,36 +446,14 @@ class ProdParser:
             return text
 
     def _SorTokens(self, tokens, until=',/'):
-        """New tokens generator which has S tokens removed,
+        """New tokens iterator which has S tokens removed,
         if followed by anything in ``until``, normally a ``,``."""
-        for token in tokens:
-            if token[0] == self.types.S:
-                try:
-                    next_ = next(tokens)
-                except StopIteration:
-                    yield token
-                else:
-                    if next_[1] in until:
-                        # omit S as e.g. ``,`` has been found
-                        yield next_
-                    elif next_[0] == self.types.COMMENT:
-                        # pass COMMENT
-                        yield next_
-                    else:
-                        yield token
-                        yield next_
-                        # S was no operator prefix: back to normal mode
-                        break
-
-            elif token[0] == self.types.COMMENT:
-                # pass COMMENT
-                yield token
-            else:
-                yield token
-                break
-        # normal mode again
-        for token in tokens:
-            yield token
+        if not isinstance(tokens, _SorTokens):
+            # one iterator for all values, else a value list gets a chain
+            # of iterators as long as the list
+            tokens = _SorTokens(tokens, self.types)
+        tokens.until = until
+        return tokens
 
     def parse(  # noqa: C901
         self,
